@@ -26,6 +26,18 @@ SLEEP_XML = """<mujoco><option timestep="0.004" gravity="0 0 0"><flag sleep="ena
 </worldbody></mujoco>"""
 
 
+# three sliders A, B, C; limited fixed tendons ab and bc, both limits active: only the tree next to an
+# AWAKE tree may be woken in one launch, whatever the order of the two tendon tasks
+TENDON_SLEEP_XML = """<mujoco><option timestep="0.004" gravity="0 0 0"><flag sleep="enable" island="enable"/></option><worldbody>
+<body pos="0 0 0"><joint name="ja" type="slide" axis="1 0 0"/><geom type="sphere" size=".05"/></body>
+<body pos="0 0.3 0"><joint name="jb" type="slide" axis="1 0 0"/><geom type="sphere" size=".05"/></body>
+<body pos="0 0.6 0"><joint name="jc" type="slide" axis="1 0 0"/><geom type="sphere" size=".05"/></body>
+</worldbody><tendon>
+<fixed name="bc" limited="true" range="-0.01 0.01"><joint joint="jb" coef="1"/><joint joint="jc" coef="-1"/></fixed>
+<fixed name="ab" limited="true" range="-0.01 0.01"><joint joint="ja" coef="1"/><joint joint="jb" coef="-1"/></fixed>
+</tendon></mujoco>"""
+
+
 def sleep_cases(wanted):
   """Real launches of the wake kernels on hand-set sleep states (one-tree cycles, several wakers)."""
   import mujoco
@@ -47,6 +59,20 @@ def sleep_cases(wanted):
     dd.tree_awake.assign((a < 0).astype(np.int32))
     with ktrace.Tracer(wanted, per_kernel=4) as t:
       sleep.wake_collision(mm, dd)
+    cases += t.cases
+  m = mujoco.MjModel.from_xml_string(TENDON_SLEEP_XML)
+  d = mujoco.MjData(m)
+  d.qpos[:] = [0.3, 0.1, -0.2]  # both tendon limits violated
+  mujoco.mj_forward(m, d)
+  mm = mjw.put_model(m)
+  for asleep in ([[-4, 1, 2], [0, -6, 2]], [[0, 1, -3], [-2, 1, 2]]):
+    dd = mjw.put_data(m, d, nworld=2, nconmax=8, njmax=32)
+    mjw.forward(mm, dd)
+    a = np.array(asleep, dtype=np.int32)
+    dd.tree_asleep.assign(a)
+    dd.tree_awake.assign((a < 0).astype(np.int32))
+    with ktrace.Tracer(wanted, per_kernel=4) as t:
+      sleep.wake_tendon(mm, dd)
     cases += t.cases
   return cases
 
